@@ -54,7 +54,20 @@ def generate(rng, seed, part):
     if n > 3 and rng.random() < 0.3:
         for _ in range(3):
             entries[rng.randrange(n)] = list(entries[rng.randrange(n)])
-    cfg = {"axis": axis, "weights": wkind, "dtype": build.pick_dtype(rng, wkind)}
+    cfg = {"axis": axis, "weights": wkind, "dtype": build.pick_dtype(rng, wkind),
+           "vtype": rng.choice(["f64", "f64", "f32", "f16"])}
+    if cfg["vtype"] != "f64":
+        # values representable in the narrow float type: they may be handed over as float32/float16 arrays
+        conv = np.float32 if cfg["vtype"] == "f32" else np.float16
+        lo, hi = float(build.spec_bins(axis)[0, 0]), float(build.spec_bins(axis)[-1, 1])
+        for e in entries:
+            with np.errstate(over="ignore"):
+                q = float(conv(e[0]))
+            if lo <= q < hi and np.isfinite(q):
+                e[0] = q
+            else:
+                cfg["vtype"] = "f64"  # (rounding would leave the bins: keep this run in double precision)
+                break
     if cfg["dtype"] == "float16":
         cfg["dtype"] = "float32"
     ops = []
@@ -222,6 +235,9 @@ def execute(plan, ctx):
             else:
                 idx = [i for i in op["idx"] if i < len(entries)]
                 data = build.as_container([entries[i][0] for i in idx], op.get("cont", "list"))
+                if cfg.get("vtype", "f64") != "f64" and isinstance(data, np.ndarray):
+                    data = data.astype(np.float32 if cfg["vtype"] == "f32" else np.float16)
+                    ctx.probe("narrow_float_values")
                 kw = {"dtype": dtype} if dtype is not None else {}
                 if wkind != "none":
                     kw["weights"] = warr([entries[i][1] for i in idx])
@@ -246,6 +262,8 @@ def execute(plan, ctx):
             if nd is None or op["i"] >= len(entries) or not nd.valid:
                 continue
             v, w = entries[op["i"]]
+            if cfg.get("vtype", "f64") == "f32" and op["i"] % 2:
+                v = np.float32(v)
             ok, res = attempt(nd.h.fill, v) if w is None else attempt(nd.h.fill, v, w)
             ctx.ev(op["n"], "fill", op["i"], "ok" if ok else exc_tag(res))
             ctx.abstract("fill", ok)
@@ -275,7 +293,11 @@ def execute(plan, ctx):
             kw = {}
             if wkind != "none":
                 kw["weights"] = warr(ws) if op.get("cont") == "ndarray" or not ws else list(ws)
-            ok, res = attempt(nd.h.fill_n, build.as_container(vals, op.get("cont", "list")), **kw)
+            batch = build.as_container(vals, op.get("cont", "list"))
+            if cfg.get("vtype", "f64") != "f64" and isinstance(batch, np.ndarray):
+                batch = batch.astype(np.float32 if cfg["vtype"] == "f32" else np.float16)
+                ctx.probe("narrow_float_values")
+            ok, res = attempt(nd.h.fill_n, batch, **kw)
             ctx.ev(op["n"], f"fill_n:{op.get('cont')}", len(idx), "ok" if ok else exc_tag(res))
             ctx.abstract("fill_n", op.get("cont"), min(len(idx), 3), ok)
             if not ok:
